@@ -969,13 +969,16 @@ END, AFTER = "end", "after_shutdown"
 class Stalls:
     """Gates that make writer thread `w` wait inside the body of `Process(event e)` until the main thread releases them."""
 
-    def __init__(self, plan):
+    def __init__(self, plan, mids=(), after_timeout=None):
         self.driver = threading.current_thread()
         self.plan = {tuple(k): v for k, v in plan}                      # (event index, writer index) -> release point
+        self.mids = {tuple(k) for k in mids}                            # gates placed before the 2nd interaction of the body
+        self.after_timeout = after_timeout                              # AFTER gates give up after this many seconds
         self.gates = {k: threading.Event() for k in self.plan}
         self.arrived = {k: threading.Event() for k in self.plan}
         self.threads = {}
         self.timed_out = []
+        self.expired = []
 
     def bind(self, writers):
         for i, h in enumerate(writers):
@@ -991,8 +994,20 @@ class Stalls:
         g = self.gates.get(key)
         if g is not None:
             self.arrived[key].set()
-            if not g.wait(30):
+            if self.plan[key] == AFTER and self.after_timeout is not None:
+                if not g.wait(self.after_timeout):       # a join() without time-out: the main thread waits for this writer
+                    self.expired.append(key)
+            elif not g.wait(30):
                 self.timed_out.append(key)
+
+    def mid_here(self, e):
+        t = threading.current_thread()
+        return t is not self.driver and (e, self.threads.setdefault(t, len(self.threads))) in self.mids
+
+    def waiting(self, w):
+        """is writer `w` held at one of its gates right now?"""
+        return any(k[1] == w and self.arrived[k].is_set() and not self.gates[k].is_set() and k not in self.expired
+                   for k in self.plan)
 
     def release(self, point):
         for k, v in self.plan.items():
@@ -1012,21 +1027,30 @@ class GatedInteractions(dict):
         super().__init__(d)
         self._e, self._stalls = e, stalls
 
+    def _gated(self, view):
+        st = self._stalls
+        if st.mid_here(self._e):                  # the gate stands between the first and the second interaction
+
+            def gen():
+                for k, x in enumerate(view):
+                    if k == 1:
+                        st.wait(self._e)
+                    yield x
+            return gen()
+        st.wait(self._e)
+        return view
+
     def items(self):
-        self._stalls.wait(self._e)
-        return super().items()
+        return self._gated(super().items())
 
     def values(self):
-        self._stalls.wait(self._e)
-        return super().values()
+        return self._gated(super().values())
 
     def keys(self):
-        self._stalls.wait(self._e)
-        return super().keys()
+        return self._gated(super().keys())
 
     def __iter__(self):
-        self._stalls.wait(self._e)
-        return super().__iter__()
+        return iter(self._gated(super().keys()))
 
     # code that copies / pickles the recorder gets a plain dict
     def __copy__(self):
@@ -1105,23 +1129,42 @@ def model_schedule(rng, n, events, crash, plan):
     return acts
 
 
-def run_execute(cfgd, evs, plan, crash, tmp):
-    """The real `initialize_handlers` + `_execute` (console handler left out) on the given events."""
+def report_path_params():
+    """The options of the real `st run` that carry report files: their click types decide who closes the file."""
+    from schemathesis.cli.commands import run as run_cmd
+    ps = {p.name: p for p in getattr(run_cmd, "params", [])}
+    try:
+        return [ps[f"report_{f}_path"] for f in ("junit", "vcr", "har")]
+    except KeyError as e:
+        raise InfraError(f"`st run` has no option {e}")
+
+
+def run_execute(cfgd, evs, plan, crash, tmp, via_click=False, join_timeout=None, after_timeout=None, mids=()):
+    """The real `initialize_handlers` + `_execute` (console handler left out) on the given events.
+
+    via_click: `_execute` is called from the callback of a click command that carries the real `--report-*-path` options
+    of `st run`, so the report files given by path are click's (opened lazily, closed when the command's context is
+    closed); what the interpreter does afterwards (wait for the non-daemon writer threads) is done here.
+    join_timeout: value for cassettes.WRITER_WORKER_JOIN_TIMEOUT during the run (if the module has it)."""
     d = Path(tmp)
     kw, paths = {}, {}
     for f in cfgd["formats"]:
         if f in cfgd["custom_paths"]:
             paths[f] = d / f"custom-{f}.{EXT[f]}"
-            kw[f"{f}_path"] = LazyFile(str(paths[f]), "w", encoding="utf-8")
+            if not via_click:
+                kw[f"{f}_path"] = LazyFile(str(paths[f]), "w", encoding="utf-8")
         else:
             paths[f] = d / "report" / f"{f}.{EXT[f]}"
     formats = [ReportFormat(f) for f in cfgd["formats"] if f not in cfgd["custom_paths"]]
-    report = ReportConfig(formats=formats, directory=d / "report", preserve_bytes=cfgd["preserve"],
-                          sanitize_output=cfgd["sanitize"], **kw)
-    config = X.RunConfig(location="http://127.0.0.1/openapi.json", base_url=None, filter_set=FilterSet(),
-                         engine=EngineConfig(execution=ExecutionConfig(seed=cfgd["seed"])), wait_for_schema=None, rate_limit=None,
-                         output=OutputConfig(), report=report, args=[], params={})
-    stalls = Stalls(plan)
+
+    def make_config():
+        report = ReportConfig(formats=list(formats), directory=d / "report", preserve_bytes=cfgd["preserve"],
+                              sanitize_output=cfgd["sanitize"], **kw)
+        return X.RunConfig(location="http://127.0.0.1/openapi.json", base_url=None, filter_set=FilterSet(),
+                           engine=EngineConfig(execution=ExecutionConfig(seed=cfgd["seed"])), wait_for_schema=None,
+                           rate_limit=None, output=OutputConfig(), report=report, args=[], params={})
+
+    stalls = Stalls(plan, mids=mids, after_timeout=after_timeout)
     captured = {}
     real_init = X.initialize_handlers
     pulled = [0]
@@ -1132,10 +1175,22 @@ def run_execute(cfgd, evs, plan, crash, tmp):
         stalls.bind([h for h in hs if isinstance(h, C.CassetteWriter)])
         return hs
 
+    def settle():
+        """(via_click) a writer that is not held gets through its backlog before `shutdown` - as the model schedule says"""
+        if not via_click:
+            return
+        deadline = time.time() + 5
+        for wi, h in enumerate(h for h in captured.get("handlers", []) if isinstance(h, C.CassetteWriter)):
+            q = getattr(h, "queue", None)
+            while hasattr(q, "empty") and not q.empty() and not stalls.waiting(wi) and time.time() < deadline:
+                time.sleep(0.002)
+        time.sleep(0.01)
+
     class Raiser(EventHandler):
         def handle_event(self, ctx, event):
             if crash is not None and pulled[0] - 1 == crash[0]:
                 stalls.release_all(include_after=False)
+                settle()
                 raise (click.Abort() if crash[2] == "Abort" else RuntimeError("boom"))
 
     def stream():
@@ -1148,29 +1203,57 @@ def run_execute(cfgd, evs, plan, crash, tmp):
                 stalls.arrived[k].wait(0.3)
             stalls.release(i)
         stalls.release(END)
+        settle()
 
-    errors, out = [], io.StringIO()
+    errors, error_threads, out = [], [], io.StringIO()
     threads_before = set(threading.enumerate())
     old_hook = threading.excepthook
-    threading.excepthook = lambda a: errors.append(a.exc_value)
+
+    def hook(a):
+        errors.append(a.exc_value)
+        error_threads.append(a.thread)
+
+    def command_body(**opts):
+        # the glue of `run()`: `ReportConfig(..., vcr_path=report_vcr_path if report_vcr_path else None, ...)`
+        for f in cfgd["formats"]:
+            if f in cfgd["custom_paths"]:
+                kw[f"{f}_path"] = opts[f"report_{f}_path"]
+        X._execute(stream(), make_config())
+
+    threading.excepthook = hook
     X.initialize_handlers = init_without_console
     if crash is not None:
         X.CUSTOM_HANDLERS.append(Raiser)
+    old_timeout = getattr(C, "WRITER_WORKER_JOIN_TIMEOUT", None)
+    if join_timeout is not None and old_timeout is not None:
+        C.WRITER_WORKER_JOIN_TIMEOUT = join_timeout
     exc = code = None
+    at_exit = []
     try:
         with Argv(cfgd["argv"]), contextlib.redirect_stdout(out), contextlib.redirect_stderr(out):
             try:
-                X._execute(stream(), config)
+                if via_click:
+                    cmd = click.Command("run", params=report_path_params(), callback=command_body)
+                    cmd.main(args=[f"--report-{f}-path={paths[f]}" for f in cfgd["formats"] if f in cfgd["custom_paths"]],
+                             prog_name="st", standalone_mode=False)
+                else:
+                    X._execute(stream(), make_config())
             except SystemExit as e:
                 code = e.code
             except Exception as e:
                 exc = e
     finally:
+        if old_timeout is not None:
+            C.WRITER_WORKER_JOIN_TIMEOUT = old_timeout
         X.initialize_handlers = real_init
         if crash is not None:
             X.CUSTOM_HANDLERS.remove(Raiser)
-        stalls.release_all()
         writers = [h for h in captured.get("handlers", []) if isinstance(h, C.CassetteWriter)]
+        for wi, h in enumerate(writers):               # the moment the command has been left
+            t, f = getattr(h, "worker", None), getattr(getattr(h, "path", None), "_f", None)
+            at_exit.append({"alive": isinstance(t, threading.Thread) and t.is_alive(), "held": stalls.waiting(wi),
+                            "file_closed": f is not None and bool(getattr(f, "closed", False))})
+        stalls.release_all()
         alive = []
         deadline = time.time() + 3
         for h in writers:
@@ -1206,9 +1289,10 @@ def run_execute(cfgd, evs, plan, crash, tmp):
     for f, pth in paths.items():
         files[f] = pth.read_text(encoding="utf-8") if pth.exists() else None
     others = sorted(str(q.relative_to(d)) for q in d.rglob("*") if q.is_file() and q not in paths.values())
+    died = [next((wi for wi, h in enumerate(writers) if getattr(h, "worker", None) is t), None) for t in error_threads]
     return {"handlers": captured["handlers"], "writers": writers, "exc": exc, "exit_code": code, "raised_by": raised_by,
-            "pulled": pulled[0], "thread_errors": errors, "alive": alive, "files": files, "other_files": others,
-            "gate_timeouts": stalls.timed_out, "console": out.getvalue()}
+            "pulled": pulled[0], "thread_errors": errors, "died": died, "alive": alive, "files": files, "other_files": others,
+            "gate_timeouts": stalls.timed_out, "gates_expired": stalls.expired, "at_exit": at_exit, "console": out.getvalue()}
 
 
 def vcr_chunks(text, serial):
@@ -1232,8 +1316,8 @@ def har_chunks(text, serial_by_url):
     return [serial_by_url.get(e["request"]["url"], 10 ** 6) for e in doc["log"]["entries"]], doc
 
 
-def gen_execute_case(chk, rng, force=None):
-    feat = chk.feature
+def gen_execute_case(chk, rng, force=None, feat=None):
+    feat = feat or chk.feature
     r = rng.random()
     cassettes = ["vcr", "har"] if r < 0.55 else ["vcr"] if r < 0.75 else ["har"] if r < 0.95 else []
     if force:
@@ -1291,7 +1375,7 @@ def gen_execute_case(chk, rng, force=None):
     return cfgd, evs, wire_evs, crash, plan, serial, serial_by_url, labels
 
 
-def execute_judge(chk, mechanism, cases, vcr_variant):
+def execute_judge(chk, mechanism, cases, vcr_variant, join_variant="asFound"):
     """Correspondence (model run on the same configuration / history / interleaving) and replay (the specification and
     independent parsers judge the files the real handlers wrote)."""
     drv = chk.driver()
@@ -1300,7 +1384,9 @@ def execute_judge(chk, mechanism, cases, vcr_variant):
         for n, case in enumerate(cases):
             cfgd, evs, wire_evs, crash, plan = case[:5]
             os.mkdir(os.path.join(tmp, str(n)))
-            results.append(run_execute(cfgd, evs, plan, crash, os.path.join(tmp, str(n))))
+            # with a join() that waits for the thread, a writer held "until after shutdown" is let go by its own gate
+            results.append(run_execute(cfgd, evs, plan, crash, os.path.join(tmp, str(n)),
+                                       after_timeout=0.3 if join_variant == "repaired" else None))
     reqs = []
     for case, res in zip(cases, results):
         cfgd, evs, wire_evs, crash, plan = case[:5]
@@ -1427,11 +1513,356 @@ def text_is_variant_mix(drv, text, req):
                for ln, la, lr, ti, tr in zip(lines, a, r, parsed[0]["lines"], parsed[1]["lines"]))
 
 
-def execute_corr(chk, rng, n, n_after, vcr_variant):
+def execute_corr(chk, rng, n, n_after, vcr_variant, join_variant="asFound"):
     cases = [list(gen_execute_case(chk, rng)) for _ in range(n)]
     cases += [list(gen_execute_case(chk, rng, force=END)) for _ in range(max(2, n // 10))]
     cases += [list(gen_execute_case(chk, rng, force=AFTER)) for _ in range(n_after)]
-    execute_judge(chk, "_execute:report-handlers", cases, vcr_variant)
+    execute_judge(chk, "_execute:report-handlers", cases, vcr_variant, join_variant)
+
+
+# ---- the end of the run: shutdown's join, the command left, click closing the report files it opened ------------------
+#
+# Model: SV.Model.C16 (C16Exit.lean: `prun`, `pJoin`, `pExit`, `diskOf`), specification: `finalReportOK`.
+# Real code: `_execute` called from the callback of a click command that carries the real `--report-*-path` options, a
+# chosen writer held inside a chosen `Process` body (at its start or between two interactions) until the command has
+# been left; then what the interpreter does (wait for the writer threads).  Thorough tier: the real CLI in a subprocess.
+
+KF_JOIN = "C16:CassetteWriter._stop_worker:join-timed-out-report-file-closed-under-writer"
+SHORT_JOIN = 0.25          # stands in for WRITER_WORKER_JOIN_TIMEOUT (1 s) in most generated runs; one run per check keeps 1 s
+
+
+def exit_schedule(join_variant, n, wire_evs, crash, plan, mids):
+    """The interleaving a stall plan realises, as acts of SV.Model.C16.prun."""
+    stalls, mids = {tuple(k): v for k, v in plan}, {tuple(k) for k in mids}
+    acts, pending, blocked = [], [0] * n, {}
+
+    def drain(w):
+        acts.extend([w] * pending[w])
+        pending[w] = 0
+
+    def put(w, key=None):
+        acts.append("m")
+        pending[w] += 1
+        if key in stalls and w not in blocked:
+            blocked[w] = key
+        if w not in blocked:
+            drain(w)
+
+    for w in range(n):
+        put(w)
+    last = len(wire_evs) if crash is None else crash[0] + 1
+    for e in range(min(last, len(wire_evs))):
+        if wire_evs[e] is not None:
+            for w in range(n if crash is None or e < crash[0] else min(crash[1], n)):
+                put(w, (e, w))
+    for w in range(n):
+        put(w)
+    if join_variant == "repaired":                    # join(): the gate gives up, the writer finishes, join returns
+        for w in list(blocked):
+            del blocked[w]
+            drain(w)
+        acts += [{"join": True}] * n + [{"exit": []}]
+    else:
+        acts += [{"join": w not in blocked} for w in range(n)]
+        acts.append({"exit": [w for w, k in blocked.items() if k in mids]})
+        for w in list(blocked):
+            drain(w)
+    return acts
+
+
+def observe_disk(fmt, text, serial, serial_by_url, msgs):
+    """A report file as the specification sees it: (whole-message chunks, torn, closedDoc) + what an independent reader says."""
+    raw, parse_ok, closed_doc = None, True, True
+    if text is None:
+        return {"chunks": [], "torn": False, "closedDoc": False}, None, False
+    if fmt == "vcr":
+        try:
+            raw = vcr_chunks(text, serial)[0]
+        except Exception:
+            parse_ok = False
+            cut = text.rfind("\n- id: ")
+            try:
+                raw = vcr_chunks(text[:cut] if cut >= 0 else "", serial)[0]
+            except Exception:
+                raw = None
+    else:
+        try:
+            raw = har_chunks(text, serial_by_url)[0]
+        except Exception:
+            closed_doc = False
+            if text == "":
+                raw = []
+            else:
+                for tail in ("\n        ]\n    }\n}", "]\n    }\n}"):
+                    try:
+                        raw = har_chunks(text + tail, serial_by_url)[0]
+                        break
+                    except Exception:
+                        continue
+                else:
+                    parse_ok = False
+    readable = parse_ok and closed_doc
+    if raw is None:
+        return {"chunks": [10 ** 6], "torn": True, "closedDoc": closed_doc}, None, readable
+    flat, k = [], 0
+    while k < len(msgs) and raw[len(flat):len(flat) + len(msgs[k])] == msgs[k]:
+        flat += msgs[k]
+        k += 1
+    left = raw[len(flat):]
+    if left and not (k < len(msgs) and msgs[k][:len(left)] == left):      # foreign content: leave it for the judgement
+        return {"chunks": raw, "torn": not parse_ok, "closedDoc": closed_doc}, raw, readable
+    return {"chunks": flat, "torn": (not parse_ok) or bool(left), "closedDoc": closed_doc}, raw, readable
+
+
+def gen_exit_case(chk, rng, real_timeout=False):
+    while True:
+        cfgd, evs, wire_evs, crash, _, serial, serial_by_url, _ = gen_execute_case(chk, rng, feat=lambda *_: None)
+        cass = [f for f in cfgd["formats"] if f != "junit"]
+        if cass:
+            break
+    cfgd["formats"] = cass                                   # initialize_handlers orders them (vcr, har)
+    cfgd["custom_paths"] = [f for f in cass if rng.random() < 0.65]
+    order = [f for f in ("vcr", "har") if f in cass]
+    scen = [i for i, w in enumerate(wire_evs) if w is not None and (crash is None or i <= crash[0])]
+    plan, mids = [], []
+    for w in range(len(order)):
+        mine = [e for e in scen if crash is None or e < crash[0] or w < crash[1]]
+        if mine and (real_timeout or rng.random() < 0.65):
+            e = rng.choice(mine)
+            plan.append([[e, w], AFTER])
+            if len(wire_evs[e]) >= 2 and rng.random() < 0.5:
+                mids.append([e, w])
+    feat = chk.feature
+    feat(f"exit:cassettes={'+'.join(order)}")
+    feat(f"exit:by-path={'+'.join(f for f in order if f in cfgd['custom_paths']) or 'none'}")
+    feat(f"exit:held-writers={len(plan)}")
+    feat(f"exit:held-mid-body={len(mids)}")
+    feat(f"exit:crash={'none' if crash is None else crash[2]}")
+    feat(f"exit:join-timeout={'real' if real_timeout else 'short'}")
+    return {"cfgd": cfgd, "evs": evs, "wire_evs": wire_evs, "crash": crash, "plan": plan, "mids": mids, "serial": serial,
+            "by_url": serial_by_url, "real_timeout": real_timeout}
+
+
+def run_exit_case(case, tmp, join_variant):
+    """Run one case; a writer that was NOT held but did not get through within the (short) join time-out is a slow machine,
+    not an observation: retry with the real time-out."""
+    for attempt, jt in enumerate([None if case["real_timeout"] else SHORT_JOIN, None, None]):
+        d = os.path.join(tmp, f"a{attempt}")
+        os.mkdir(d)
+        real_to = getattr(C, "WRITER_WORKER_JOIN_TIMEOUT", 1) if jt is None else jt
+        res = run_execute(case["cfgd"], case["evs"], case["plan"], case["crash"], d, via_click=True, join_timeout=jt,
+                          after_timeout=(real_to + 1.5) if join_variant == "asFound" else 0.3, mids=case["mids"])
+        held = {k[1] for k in (tuple(k) for k, _ in case["plan"])}
+        if not any(a["alive"] and wi not in held for wi, a in enumerate(res["at_exit"])):
+            return res
+    raise InfraError("a writer that was not held did not return within the join time-out (machine too slow?)")
+
+
+def exit_judge(chk, mechanism, cases, join_variant, click_owns):
+    drv = chk.driver()
+    results = []
+    with tempfile.TemporaryDirectory(prefix="c16-") as tmp:
+        for n, case in enumerate(cases):
+            os.mkdir(os.path.join(tmp, str(n)))
+            results.append(run_exit_case(case, os.path.join(tmp, str(n)), join_variant))
+    reqs = []
+    for case, res in zip(cases, results):
+        cfgd, wire_evs, crash = case["cfgd"], case["wire_evs"], case["crash"]
+        fmts = [h.format.value for h in res["writers"]]
+        eff = crash[:2] if crash is not None else None
+        case["fmts"], case["eff"] = fmts, eff
+        case["sched"] = exit_schedule(join_variant, len(fmts), wire_evs, eff, case["plan"], case["mids"])
+        reqs.append(("exit_run", {"variant": join_variant, "fmts": fmts, "custom": [click_owns and f in cfgd["custom_paths"] for f in fmts],
+                                  "seed": cfgd["seed"], "events": wire_evs, "crash": eff, "sched": case["sched"]}))
+    outs = drv.batch(reqs)
+    judge = []
+    for case, res, m in zip(cases, results, outs):
+        if isinstance(m, dict) and "__err__" in m:
+            raise InfraError(f"model error {m}")
+        cfgd, wire_evs, crash, fmts, eff = case["cfgd"], case["wire_evs"], case["crash"], case["fmts"], case["eff"]
+        if not m["terminated"] or m["pc_left"] != 0:
+            raise InfraError(f"the model run did not reach the end of the process: {m} on {case['sched']}")
+        if res["gate_timeouts"]:
+            raise InfraError(f"a stalled writer was not released: {res['gate_timeouts']}")
+        evs = case["evs"]
+        replay = {"kind": "exit", "config": cfgd, "events": wire_evs, "crash": crash, "stalls": case["plan"], "mid_body": case["mids"],
+                  "entries": [None if w is None else [W.wire_entry(rec, cid) for cid in rec.interactions] for (ev, rec), w in zip(evs, wire_evs)],
+                  "labels": [None if rec is None else rec.label for _, rec in evs],
+                  "event_kinds": [type(ev).__name__ for ev, _ in evs],
+                  "statuses": [getattr(ev, "status", None) and ev.status.value for ev, _ in evs],
+                  "real_timeout": case["real_timeout"], "files": {k: (v if v is None else v[-1500:]) for k, v in res["files"].items()},
+                  "thread_errors": [repr(e) for e in res["thread_errors"]], "at_exit": res["at_exit"]}
+        key = [cfgd, wire_evs, crash, case["plan"], case["mids"]]
+        chk.case(mechanism, key=key, nontrivial=bool(case["plan"]) and bool(cfgd["custom_paths"]),
+                 sample={"config": cfgd, "events": wire_evs, "crash": crash, "held": case["plan"], "mid_body": case["mids"]})
+        exc = res["exc"]
+        if exc is not None and not (crash is not None and isinstance(exc, RuntimeError) and str(exc) == "boom"):
+            chk.violation(f"C16:_execute:exit:raises-{type(exc).__name__}", f"_execute raised {exc!r}", {**replay, "error": repr(exc)})
+            continue
+        if any(res["alive"]):
+            chk.violation("C16:_execute:exit:writer-thread-never-returns", f"a writer thread is still alive long after the "
+                          f"command was left: alive={res['alive']}", replay)
+            continue
+        foreign = [e for e in res["thread_errors"] if not (isinstance(e, ValueError) and "closed file" in str(e))]
+        if foreign:
+            chk.violation("C16:_execute:exit:writer-thread-died", f"a writer thread died: {foreign!r}", replay)
+            continue
+        for wi, fmt in enumerate(fmts):
+            delivered = wire_evs if eff is None else wire_evs[:eff[0] + (1 if wi < eff[1] else 0)]
+            msgs = ([[{"preamble": cfgd["seed"]}]] if fmt == "vcr" else []) + [w for w in delivered if w is not None]
+            disk, raw, readable = observe_disk(fmt, res["files"].get(fmt), case["serial"], case["by_url"], msgs)
+            mw = m["writers"][wi]
+            impl = {"disk": disk, "died_on_closed_file": wi in res["died"]}
+            model = {"disk": mw["disk"], "died_on_closed_file": mw["dead"]}
+            if impl != model:
+                chk.disagreement(mechanism, {"aspect": f"{fmt} report at process end", "config": cfgd, "events": wire_evs,
+                                             "crash": eff, "held": case["plan"], "mid_body": case["mids"], "sched": case["sched"]},
+                                 model, impl)
+            oracle = readable and raw == [c for mm in msgs for c in mm]
+            cut_short = res["at_exit"][wi]["alive"] and res["at_exit"][wi]["file_closed"]
+            judge.append((("judge_final", {"fmt": fmt, "seed": cfgd["seed"], "delivered": delivered, **disk}), oracle, fmt,
+                          cut_short, {**replay, "format": fmt, "observed": disk}))
+    for (req, oracle, fmt, cut_short, replay), o in zip(judge, drv.batch([j[0] for j in judge])):
+        if o != oracle:
+            raise InfraError(f"Lean finalReportOK ({o}) and the Python oracle ({oracle}) disagree on {req}")
+        if not o:
+            if cut_short:
+                chk.violation(KF_JOIN, f"the {fmt} report given by --report-{fmt}-path is cut short: shutdown's join timed out while "
+                              f"the writer still had a backlog, the command was left, click closed the file, the writer thread "
+                              f"died with ValueError; on disk: {replay['observed']}", replay)
+            else:
+                chk.violation(f"C16:_execute:exit:{fmt}-report-incomplete-at-process-end",
+                              f"the {fmt} report is not complete when the process is over: {replay['observed']}", replay)
+
+
+def exit_witness_case():
+    """One VCR writer on a --report-vcr-path file, two scenarios, the writer held at the first Process body."""
+    evs, wire_evs, serial, by_url = [], [], {}, {}
+    for k in range(2):
+        rec = ScenarioRecorder(label="GET /a")
+        case = W.operation(label="GET /a").Case()
+        case.meta = W.CaseMetadata(generation=W.GenerationInfo(time=0.0, mode=W.GenerationMode.POSITIVE), components={},
+                                   phase=W.PhaseInfo.generate())
+        rec.record_case(parent_id=None, transition=None, case=case)
+        uri = f"http://127.0.0.1:8080/x/{k}"
+        rec.record_request(case_id=case.id, request=W.requests.Request("GET", uri).prepare())
+        serial[case.id], by_url[uri] = k, k
+        evs.append((W.scenario_finished(rec, Status.ERROR), rec))
+        wire_evs.append([k])
+    cfgd = {"formats": ["vcr"], "custom_paths": ["vcr"], "preserve": False, "sanitize": False, "seed": 1, "argv": ["st", "run"]}
+    return {"cfgd": cfgd, "evs": evs, "wire_evs": wire_evs, "crash": None, "plan": [[[0, 0], AFTER]], "mids": [], "serial": serial,
+            "by_url": by_url, "real_timeout": False}
+
+
+def detect_exit_variant(chk):
+    """Which ordering does the tree have?  The witness run: was the command left while the held writer was still held
+    (join with a time-out), and was its file closed at that moment (the file is click's)?"""
+    case = exit_witness_case()
+    with tempfile.TemporaryDirectory(prefix="c16-") as tmp:
+        res = run_execute(case["cfgd"], case["evs"], case["plan"], None, tmp, via_click=True, join_timeout=SHORT_JOIN,
+                          after_timeout=SHORT_JOIN + 0.6)
+    if not res["at_exit"]:
+        raise InfraError("the exit witness produced no cassette writer")
+    a = res["at_exit"][0]
+    join_variant = "asFound" if a["held"] and a["alive"] else "repaired"
+    click_owns = a["file_closed"] if join_variant == "asFound" else True
+    chk.variants["CassetteWriter.shutdown.join"] = join_variant
+    chk.variants["report-path-file-closed-by-click-at-exit"] = "asFound" if click_owns else "repaired"
+    return join_variant, click_owns
+
+
+def cli_subprocess_exit(chk):
+    """Thorough tier: the real `st run` in a subprocess against a loopback server whose responses are large enough for
+    the writer's backlog to outlive shutdown's join; the report is read back when the process is over."""
+    import http.server
+    import subprocess
+    sizes = {"vcr": (8, 2), "har": (16, 3)}          # (examples, MB per response): enough for > 1 s of backlog at exit
+    schema = {"openapi": "3.0.0", "info": {"title": "t", "version": "1"},
+              "paths": {"/big": {"get": {"parameters": [{"name": "q", "in": "query", "schema": {"type": "integer"}}],
+                                         "responses": {"200": {"description": "ok", "content": {"text/plain": {"schema": {"type": "string"}}}}}}}}}
+    hits, body = [], [b""]
+
+    class H(http.server.BaseHTTPRequestHandler):
+        protocol_version = "HTTP/1.1"
+
+        def log_message(self, *a):
+            pass
+
+        def do_GET(self):
+            if self.path.startswith("/openapi.json"):
+                b, ct = json.dumps(schema).encode(), "application/json"
+            else:
+                if self.path.startswith("/big"):
+                    hits.append(self.path)
+                b, ct = body[0], "text/plain; charset=utf-8"
+            self.send_response(200)
+            self.send_header("Content-Type", ct)
+            self.send_header("Content-Length", str(len(b)))
+            self.end_headers()
+            self.wfile.write(b)
+
+    srv = http.server.ThreadingHTTPServer(("127.0.0.1", 0), H)
+    t = threading.Thread(target=srv.serve_forever, daemon=True)
+    t.start()
+    try:
+        port = srv.server_address[1]
+        for fmt, mode in (("vcr", "path"), ("har", "path"), ("vcr", "dir")):
+            del hits[:]
+            body[0] = b"\x01" * (sizes[fmt][1] * 1024 * 1024)
+            with tempfile.TemporaryDirectory(prefix="c16-") as td:
+                if mode == "path":
+                    out = os.path.join(td, f"out.{EXT[fmt]}")
+                    args = [f"--report-{fmt}-path={out}"]
+                else:
+                    out = os.path.join(td, "reports", f"{fmt}.{EXT[fmt]}")
+                    args = [f"--report={fmt}", f"--report-dir={os.path.join(td, 'reports')}"]
+                cmd = [sys.executable, "-m", "schemathesis.cli", "run", f"http://127.0.0.1:{port}/openapi.json", "--phases=fuzzing",
+                       f"--max-examples={sizes[fmt][0]}", "--seed=1", "--checks=not_a_server_error"] + args
+                t0 = time.time()
+                p = subprocess.run(cmd, capture_output=True, text=True, cwd=td, timeout=600)
+                wall = time.time() - t0
+                n_hits = len(hits)
+                if p.returncode != 0 or n_hits == 0:
+                    raise InfraError(f"`st run` did not run the fuzzing phase: rc={p.returncode} hits={n_hits} {p.stdout[-800:]} {p.stderr[-800:]}")
+                data = open(out, "rb").read() if os.path.exists(out) else None
+                n_listed, why = None, None
+                try:
+                    if data is None:
+                        why = "no report file"
+                    elif fmt == "vcr":        # the bodies are runs of one escape inside a quoted scalar: drop them before parsing
+                        n_listed = len(yaml.load(data.replace(b"\\x01", b""), Loader=getattr(yaml, "CSafeLoader", yaml.SafeLoader))["http_interactions"] or [])
+                    else:
+                        n_listed = len(json.loads(data.replace(b"\\u0001", b""))["log"]["entries"])
+                except Exception as e:
+                    why = f"{type(e).__name__}: {str(e)[:200]}"
+            died = "closed file" in p.stderr and "SchemathesisCassetteWriter" in p.stderr
+            chk.case("st-run:subprocess", key=[fmt, mode], sample={"format": fmt, "report given by": mode, "requests": n_hits,
+                                                                   "listed": n_listed, "wall_s": round(wall, 1)})
+            chk.feature(f"st-run:{fmt}:{mode}:{'complete' if n_listed == n_hits else 'cut-short'}")
+            replay = {"kind": "exit-subprocess", "format": fmt, "report_given_by": mode, "requests_served": n_hits, "listed": n_listed,
+                      "parse": why, "stderr": p.stderr[-1500:], "report_bytes": None if data is None else len(data)}
+            if n_listed == n_hits:
+                continue
+            if died:
+                chk.violation(KF_JOIN, f"`st run --report-{fmt}-path=...` (exit code 0) left a {fmt} report that "
+                              f"{'cannot be read back (' + why + ')' if why else f'lists {n_listed} of {n_hits} exchanges'}: the writer "
+                              f"thread died with ValueError on a closed file after shutdown's join timed out", replay)
+            else:
+                chk.violation(f"C16:st-run:{fmt}-report-{'not-parseable' if why else 'differs-from-traffic'}",
+                              f"the {fmt} report of a real `st run` {'cannot be read back: ' + why if why else f'lists {n_listed} exchanges, {n_hits} requests were served'}",
+                              replay)
+    finally:
+        srv.shutdown()
+        srv.server_close()
+
+
+def exit_corr(chk, rng, n, join_variant, click_owns):
+    exit_judge(chk, "_execute:exit:witness", [exit_witness_case()], join_variant, click_owns)
+    cases = [gen_exit_case(chk, rng) for _ in range(n)] + [gen_exit_case(chk, rng, real_timeout=True)]
+    exit_judge(chk, "_execute:exit", cases, join_variant, click_owns)
+    if chk.thorough:
+        cli_subprocess_exit(chk)
+
 
 
 # ---- run ------------------------------------------------------------------------------------------------------------
@@ -1503,15 +1934,28 @@ def run(chk):
         "with the writer threads, what a cassette writer has written is a prefix of [preamble] + each delivered exchange once in "
         "order, equal to it once the writer returned, and no writer waits forever; execute_completes: from any point the writers "
         "can be run to completion (no deadlock); shared_queue_full_false: the 'own queue object' hypothesis cannot be dropped",
-        "command_repr_spec: get_command_representation"]
+        "command_repr_spec: get_command_representation",
+        "the end of the run (shutdown's join, the command left, click closing the --report-*-path files, the interpreter waiting "
+        "for the writer threads): exit_reports_complete - with a join that waits for the thread, for every handler set, file "
+        "owner, history, crash point and EVERY interleaving, once _execute has been left every report on disk is complete (no "
+        "fragment, HAR closed, each delivered exchange exactly once) and no writer died; exit_repaired_terminates - that join "
+        "cannot hang: from any point the run can be finished; exit_asFound_full_false / exit_asFound_har_witness - with the 1 s "
+        "time-out an interleaving ends with a cassette cut inside an exchange / a HAR file without closing brackets; "
+        "exit_asFound_reportDir_partial (files not owned by click are complete at process end, both orderings), "
+        "exit_asFound_no_timeout_partial (runs in which no join timed out), exit_file_is_prefix (a report can only be cut short)"]
     chk.partial += [
         "the full VCR theorem is about the repaired writer; as found only the per-site partial theorems and the witnesses hold",
         "the repr() site (check message) is modelled for ASCII titles only; wider titles are judged by replay (PyYAML) only",
         "HAR: only the response-header look-ups are modelled; all other HAR fields are compared by replay against json.load",
         "writer threads: the interleaving theorems are about the model's atomic steps (one queue.put / one queue.get + loop body); "
         "on the real threads a generated stall schedule (a chosen writer waits inside a chosen Process body until the main thread "
-        "reaches a chosen point, incl. past shutdown's 1 s join) realises interleavings deterministically; wall-clock behaviour of "
-        "the join timeout itself is not modelled",
+        "reaches a chosen point, incl. past shutdown's 1 s join) realises interleavings deterministically; the join time-out is "
+        "modelled as a nondeterministic choice (join returns although the thread runs), not as a duration",
+        "the end of the run: joins are modelled after all puts (sound: a join only waits, its guard is monotone); a close that "
+        "lands inside a loop body is modelled as 'fragment + thread dies' (torn), not byte-exact; in most generated runs "
+        "WRITER_WORKER_JOIN_TIMEOUT is set to 0.25 s (one run per check keeps the real 1 s); the click command around _execute is "
+        "built by the check from the real --report-*-path options of `st run` (the real `run()` callback needs a schema and the "
+        "engine) - the real CLI in a subprocess is run in the thorough tier only",
         "_execute is driven without the console OutputHandler (initialize_handlers' result minus OutputHandler)",
         "write_double_quoted's run-flushing loop is modelled as its character-wise concatenation (validated by correspondence)"]
     chk.sampled_only += [
@@ -1553,7 +1997,9 @@ def run(chk):
     vcr_judge(chk, "vcr_writer:sanitize_output", recs, feds, False, vcr_variant, sanitize=True)
     threaded_cassette(chk, rng, ReportFormat.VCR, chk.budget(25, 200))
     threaded_cassette(chk, rng, ReportFormat.HAR, chk.budget(15, 100))
-    execute_corr(chk, rng, chk.budget(50, 600), chk.budget(2, 10), vcr_variant)
+    join_variant, click_owns = detect_exit_variant(chk)
+    execute_corr(chk, rng, chk.budget(50, 600), chk.budget(2, 10), vcr_variant, join_variant)
+    exit_corr(chk, rng, chk.budget(24, 300), join_variant, click_owns)
 
     # 3. HAR
     for preserve in (False, True):
@@ -1573,6 +2019,26 @@ def run(chk):
     hists = [gen_history(rng, rng.randrange(1, 4)) for _ in range(chk.budget(20, 200))]
     junit_judge(chk, "junit:unknown-charset", hists, junit_variant, encoding="foo")
     chk.exhaustive = False
+
+
+def rebuild_events(r):
+    """The event history of a recorded `_execute` case, as real events."""
+    evs, serial, by_url = [], {}, {}
+    for k, label, status, entries, ids in zip(r["event_kinds"], r["labels"], r["statuses"], r["entries"], r["events"]):
+        if k == "ScenarioFinished":
+            rec = W.recorder_from_wire(entries, label=label)
+            for e, i in zip(entries, ids):
+                serial[from_cps(e["id"])] = i
+                by_url[from_cps(e["uri"])] = i
+            evs.append((W.scenario_finished(rec, Status(status)), rec))
+        elif k == "EngineFinished":
+            evs.append((events.EngineFinished(running_time=1.0), None))
+        elif k == "NonFatalError":
+            evs.append((events.NonFatalError(error=RuntimeError("boom"), phase=W.PhaseName.FUZZING, label="GET /a",
+                                             related_to_operation=True), None))
+        else:
+            evs.append((events.EngineStarted(), None))
+    return evs, serial, by_url
 
 
 def replay(chk, data):
@@ -1616,23 +2082,46 @@ def replay(chk, data):
                 m = chk.driver().one("vcr_doc", {"variant": v, "preserve": r["preserve"], "command": cps(command),
                                                  "version": cps(SCHEMATHESIS_VERSION), "seed": cps("1"), "recorders": [r["entries"]]})
                 print(f"model {v}: {'same text as the implementation' if from_cps(m['text']) == text else from_cps(m['text'])}")
+    elif kind == "exit":
+        cfgd = r["config"]
+        evs, serial, by_url = rebuild_events(r)
+        case = {"cfgd": cfgd, "evs": evs, "wire_evs": r["events"], "crash": r["crash"], "plan": r["stalls"], "mids": r["mid_body"],
+                "serial": serial, "by_url": by_url, "real_timeout": r.get("real_timeout", False)}
+        print("config   :", json.dumps(cfgd), " (custom_paths: given by --report-<fmt>-path, i.e. click's file)")
+        print("events   :", json.dumps(r["events"]), " (exchange numbers per ScenarioFinished, null = another event)")
+        print("handler raising at [event, after this many writers, exception]:", r["crash"])
+        print("writers held inside a Process body until the command was left [[event, writer], ..]:", json.dumps(r["stalls"]),
+              " held between two interactions:", json.dumps(r["mid_body"]))
+        join_variant, click_owns = detect_exit_variant(chk)
+        print(f"tree     : join = {join_variant}, report-path files closed by click at exit = {click_owns}")
+        with tempfile.TemporaryDirectory(prefix="c16-") as tmp:
+            res = run_exit_case(case, tmp, join_variant)
+        fmts = [h.format.value for h in res["writers"]]
+        eff = r["crash"][:2] if r["crash"] else None
+        print("impl now : exception =", repr(res["exc"]), "exit code =", res["exit_code"], "thread errors =", [repr(e) for e in res["thread_errors"]])
+        print("impl now : when the command was left:", res["at_exit"])
+        for wi, f in enumerate(fmts):
+            delivered = r["events"] if eff is None else r["events"][:eff[0] + (1 if wi < eff[1] else 0)]
+            msgs = ([[{"preamble": cfgd["seed"]}]] if f == "vcr" else []) + [w for w in delivered if w is not None]
+            disk, raw, readable = observe_disk(f, res["files"].get(f), serial, by_url, msgs)
+            print(f"impl now : {f} report at process end: {disk} (readable by PyYAML/json: {readable}; expected {[c for m in msgs for c in m]})")
+        for v in ("asFound", "repaired"):
+            sched = exit_schedule(v, len(fmts), r["events"], eff, r["stalls"], r["mid_body"])
+            m = chk.driver().one("exit_run", {"variant": v, "fmts": fmts, "custom": [f in cfgd["custom_paths"] for f in fmts],
+                                              "seed": cfgd["seed"], "events": r["events"], "crash": eff, "sched": sched})
+            for f, w in zip(fmts, m["writers"]):
+                print(f"model {v}: {f} report at process end: {w['disk']} ok={w['ok']} writer died={w['dead']}")
+        for f, text in (r.get("files") or {}).items():
+            if f == r.get("format") and text is not None:
+                print(f"--- recorded {f} report (tail) ---")
+                print(text)
+    elif kind == "exit-subprocess":
+        print("recorded:", json.dumps(r, indent=1)[:4000])
+        print("re-run with: ./check C16 --tier thorough (mechanism st-run:subprocess); stand-alone: st run <schema> "
+              "--phases=fuzzing --max-examples=8 --report-vcr-path=out.yaml against an endpoint answering 2 MB of \\x01 bytes")
     elif kind == "execute":
         cfgd = r["config"]
-        evs, serial, by_url = [], {}, {}
-        for k, label, status, entries, ids in zip(r["event_kinds"], r["labels"], r["statuses"], r["entries"], r["events"]):
-            if k == "ScenarioFinished":
-                rec = W.recorder_from_wire(entries, label=label)
-                for e, i in zip(entries, ids):
-                    serial[from_cps(e["id"])] = i
-                    by_url[from_cps(e["uri"])] = i
-                evs.append((W.scenario_finished(rec, Status(status)), rec))
-            elif k == "EngineFinished":
-                evs.append((events.EngineFinished(running_time=1.0), None))
-            elif k == "NonFatalError":
-                evs.append((events.NonFatalError(error=RuntimeError("boom"), phase=W.PhaseName.FUZZING, label="GET /a",
-                                                 related_to_operation=True), None))
-            else:
-                evs.append((events.EngineStarted(), None))
+        evs, serial, by_url = rebuild_events(r)
         print("config   :", json.dumps(cfgd))
         print("events   :", json.dumps(r["events"]), " (exchange numbers per ScenarioFinished, null = another event)")
         print("handler raising at [event, after this many writers, exception]:", r["crash"])
